@@ -8,7 +8,7 @@ ID = "C45"
 LEVEL = "fault_enumeration"
 ENGINE = "E2 detgrid"
 TECHNIQUE = ("Hypothesis-generated files/encodings with per-share damage drawn from the share-format field classes (deleted, truncated, bad version, flips in blocks, block hash "
-             "tree, share hash chain, ciphertext hash tree, URI extension block, unused regions), checked with and without verification and repaired through a verify-cap-only "
+             "tree, share hash chain, ciphertext hash tree, URI extension block, unused regions), plus consistent forgeries (blocks altered and the block hash tree rebuilt over them), checked with and without verification and repaired (optionally while a server fails the writes or the close of its new share) through a verify-cap-only "
              "node on the in-process grid; oracle = good-share set computed from the damage plan, byte comparison of pre-existing share data, and a read through the original "
              "read cap restricted to the repaired shares (plus as few old shares as needed to reach k)")
 RULE = ("each case: k<=3, N<=5, 1-4 segments (max segment size smaller than the file), one share per server on N..N+2 servers, 0-N damages; verify in {F,T}. Oracle: with "
